@@ -298,7 +298,11 @@ def read_pdf(data):
     if not re.fullmatch(rb'\r?\n?endstream\r?\n?', tail):
         raise Malformed('/Length %d does not match the stream (tail %r)' % (length, tail[:20]))
     if b'/FlateDecode' in c[:sm.start()]:
-        stream = zlib.decompress(stream)
+        dec = zlib.decompressobj()
+        raw = dec.decompress(stream)
+        if not dec.eof or dec.unused_data:
+            raise Malformed('/Length %d: the stream is not exactly one Flate stream (%d bytes left over)' % (length, len(dec.unused_data)))
+        stream = raw
     toks = stream.decode('ascii').split()
     stack = []
     a = d = 1.0
